@@ -533,6 +533,202 @@ class TypeOf(SVal):
         self.t = t
 
 
+# --- DirDiff.get: the walk along the prefixes of a relative path --------------------------------------------------------------
+DEPTH = z3.Function("path_depth", PathS, I)  # number of segments; 0 for Path("")
+ANC = z3.Function("path_prefix", PathS, I, PathS)  # the prefix with i segments
+REACH = z3.Function("node_is_in_the_diff_tree", Ref, B)  # any predicate that holds the root and is closed under children (so also the least one: reachability)
+T2_PREFIXES = "T2 pathlib: [p] + list(p.parents) lists the prefixes of a relative path p from p itself (DEPTH(p) segments) down to Path('') (0 segments); Path(p) of a path is p; is_absolute() is False for relative paths"
+KINDS = ("removed", "modified", "added")
+
+
+class PrefixList(SVal):
+    """the python list [ANC(p, hi), ..., ANC(p, lo)] (pop() takes ANC(p, lo) from the end)"""
+
+    def __init__(self, p, lo, hi):
+        self.p, self.lo, self.hi = p, lo, hi
+
+    def py_truth(self, cx):
+        return self.lo <= self.hi
+
+    def meth_pop(self, cx, *idx):
+        if idx:
+            raise Unsupported("list.pop(i)")
+        cx.decide_or_fail(self.lo <= self.hi, "IndexError", "pop from empty list")
+        v = GetPath(ANC(self.p, self.lo))
+        self.lo = self.lo + 1
+        return v
+
+    def py_radd(self, cx, left):
+        if not (isinstance(left, list) and len(left) == 1 and isinstance(left[0], PathV)):
+            raise Unsupported("list + prefixes")
+        if not cx.decide(left[0].t == ANC(self.p, self.hi + 1)):
+            raise Unsupported("the prepended path is not the next longer prefix")
+        return PrefixList(self.p, self.lo, self.hi + 1)
+
+    def havoc_inplace(self, cx, hint="prefixes"):
+        self.lo = z3.Int(fresh_name(hint + "_lo"))
+
+
+class GetPath(PathV):
+    def meth_is_absolute(self, cx):
+        return False
+
+    def py_getattr(self, cx, name):
+        if name == "parents":
+            return PrefixList(self.t, z3.IntVal(0), DEPTH(self.t) - 1)
+        raise Unsupported("Path attribute " + name)
+
+    def fresh_like(self, cx, name):
+        return GetPath(z3.Const(fresh_name(name), PathS))
+
+
+class ChildrenColl(SVal):
+    """what DiffNode.children() yields: the values of the three dicts of the node (itertools.chain, T2)"""
+
+    def __init__(self, c):
+        self.c = c
+
+    def none_satisfies(self, cx, pred):
+        out = []
+        for kind in KINDS:
+            q = z3.Const(fresh_name("cq"), PathS)
+            out.append(z3.ForAll([q], z3.Implies(z3.Select(mdom(cx, self.c, kind), q), z3.Not(pred(z3.Select(mval(cx, self.c, kind), q))))))
+        return z3.And(*out)
+
+    def is_member(self, cx, w):
+        out = []
+        for kind in KINDS:
+            q = z3.Const(fresh_name("wq"), PathS)  # free: some key
+            out.append(z3.And(z3.Select(mdom(cx, self.c, kind), q), z3.Select(mval(cx, self.c, kind), q) == w))
+        return z3.Or(*out)
+
+
+class Matches(SVal):
+    """(x for x in <children> if <filter>) — consumed by next(..., default)"""
+
+    def __init__(self, src, pred):
+        self.src, self.pred = src, pred
+
+
+def first_match_schema(interp, cx, fr, e):
+    import ast
+
+    from pyvc.engine import Env, Frame
+    from pyvc.values import truth
+
+    g = e.generators[0]
+    if len(e.generators) != 1 or not (isinstance(e.elt, ast.Name) and isinstance(g.target, ast.Name) and e.elt.id == g.target.id):
+        raise Unsupported("generator is not a plain filter of its source")
+    src = interp.eval(cx, fr, g.iter)
+    if not isinstance(src, ChildrenColl):
+        raise Unsupported("generator source is not node.children()")
+
+    def pred(ref_t):
+        sub = Frame(fr.modinfo, fr.qual, Env(fr.env), spec=fr.spec, cls=fr.cls)
+        vals, fails, axioms = interp.eval_exprs_on_element(cx, sub, g.target, SRef("DiffNode", ref_t), list(g.ifs), ref_t)
+        if fails or axioms:
+            raise Unsupported("filter may raise")
+        return z3.And(*[as_bool(cx, truth(cx, v)) for v in vals]) if vals else z3.BoolVal(True)
+
+    return Matches(src, pred)
+
+
+def next_binding(cx, gen, *default):
+    if not isinstance(gen, Matches) or len(default) != 1 or default[0] is not None:
+        raise Unsupported("next() other than next(<filter of children>, None)")
+    none = z3.Bool(fresh_name("no_match"))
+    w = SRef.fresh("DiffNode", "match")
+    cx.assume(z3.Implies(none, gen.src.none_satisfies(cx, gen.pred)))  # next(..., None) is None only if no element passes the filter
+    cx.assume(z3.Implies(z3.Not(none), z3.And(gen.src.is_member(cx, w.t), gen.pred(w.t))))  # otherwise it is some element that passes (the first in iteration order)
+    return SMaybe(none, w)
+
+
+def ref_of(v):
+    if isinstance(v, SMaybe):
+        v = v.val
+    return v.t
+
+
+class DirDiffGet(FnSpec):
+    file = "util/diff.py"
+    qual = "DirDiff.get"
+    props = ("C18",)
+
+    def init(self):
+        self.bindings["Path"] = lambda cx, x: x if isinstance(x, GetPath) else (_ for _ in ()).throw(Unsupported("Path of a non-path"))
+        self.bindings["list"] = lambda cx, x: x if isinstance(x, PrefixList) else (_ for _ in ()).throw(Unsupported("list() of something else"))
+        self.bindings["next"] = next_binding
+        self.comps[0] = first_match_schema
+
+        def inv(cx, env, it):
+            a = cx.ghost["get_args"]
+            p, n = a.p, DEPTH(a.p)
+            pl, curr = env["prefixes"], ref_of(env["curr"])
+            if not isinstance(pl, PrefixList):
+                return [("prefixes-shape", z3.BoolVal(False))]
+            return [
+                ("remaining-prefixes", z3.And(pl.p == p, pl.hi == n, 1 <= pl.lo, pl.lo <= n + 1)),
+                ("walked-so-far", z3.And(z3.Select(alloc(cx), curr), REACH(curr), fld(cx, curr, "path") == ANC(p, pl.lo - 1))),
+            ]
+
+        self.loops[0] = LoopSpec(inv, modifies=["path", "curr", "prefixes"])
+
+    def setup(self, cx):
+        from pyvc.containers import SObj
+
+        for ax in axioms(light=True):
+            cx.assume(ax)
+        p = z3.Const("wanted", PathS)
+        me = SObj("DirDiff", name="self")
+        al = alloc(cx)
+        if cx.choose(2) == 0:
+            me.fields["_diff_root"] = None
+            root = None
+        else:
+            rt = SRef.fresh("DiffNode", "root")
+            me.fields["_diff_root"] = rt
+            root = rt.t
+            c = z3.Const("tc", Ref)
+            q = z3.Const("tq", PathS)
+            i = z3.Int("ti")
+            cx.assume(z3.And(z3.Select(al, root), fld(cx, root, "path") == ROOT_PATH, REACH(root)))  # DirDiff.compare: the root sits at Path("")
+            for kind in KINDS:  # children of nodes are nodes (DiffNode.compare allocates them); REACH is closed under children
+                cx.assume(z3.ForAll([c, q], z3.Implies(z3.And(z3.Select(al, c), z3.Select(mdom(cx, c, kind), q)), z3.Select(al, z3.Select(mval(cx, c, kind), q)))))
+                cx.assume(z3.ForAll([c, q], z3.Implies(z3.And(REACH(c), z3.Select(mdom(cx, c, kind), q)), REACH(z3.Select(mval(cx, c, kind), q)))))
+        cx.assume(z3.And(DEPTH(p) >= 0, ANC(p, DEPTH(p)) == p, ANC(p, 0) == ROOT_PATH))  # T2_PREFIXES
+        a = A(self=me, path=GetPath(p))
+        a.p, a.root = p, root
+        cx.ghost["get_args"] = a
+        return a
+
+    def raises(self, cx, a):
+        return {}
+
+    def ensures(self, cx, a, res):
+        p, n = a.p, DEPTH(a.p)
+        if a.root is None:
+            return [("empty-diff-has-no-nodes", z3.BoolVal(res is None), "an empty diff answers None for every path")]
+        if res is None:
+            none_c, r = z3.BoolVal(True), None
+        elif isinstance(res, SMaybe):
+            none_c, r = res.isnone, res.val.t
+        elif isinstance(res, SRef):
+            none_c, r = z3.BoolVal(False), res.t
+        else:
+            return [("result-shape", z3.BoolVal(False), "returns a DiffNode or None")]
+        out = []
+        if r is not None:
+            out.append(("found-node-is-in-the-tree-at-that-path", z3.Implies(z3.Not(none_c), z3.And(REACH(r), z3.Select(alloc(cx), r), fld(cx, r, "path") == p)), "a node handed out is a node of this diff (reached from the root through children) and carries exactly the asked path"))
+        c = z3.Const("gc", Ref)
+        i = z3.Int("gi")
+        stuck = []
+        for kind in KINDS:
+            q = z3.Const(fresh_name("gq"), PathS)
+            stuck.append(z3.ForAll([q], z3.Implies(z3.Select(mdom(cx, c, kind), q), fld(cx, z3.Select(mval(cx, c, kind), q), "path") != ANC(p, i))))
+        out.append(("none-only-where-the-chain-of-prefixes-breaks", z3.Implies(none_c, z3.Exists([c, i], z3.And(1 <= i, i <= n, REACH(c), fld(cx, c, "path") == ANC(p, i - 1), *stuck))), "None is answered only if some node of the tree at a proper prefix of the path has no child at the next prefix — with one node per path and children filed below their parent (DiffNode.compare), no node of the tree has the asked path then"))
+        return out
+
+
 class StatusVal(SVal):
     def __init__(self, name):
         self.name = name
@@ -548,7 +744,8 @@ class StatusNS(SVal):
 def build(reg):
     reg.set_class_home("DiffNode", "util/diff.py")
     reg.ctors["DiffNode"] = node_ctor
-    specs = [Compare(), Status(), EntityType(), DirDiffCompare(), DirDiffStatus(), TypeProps("prev"), TypeProps("curr")]
+    specs = [Compare(), Status(), EntityType(), DirDiffCompare(), DirDiffStatus(), TypeProps("prev"), TypeProps("curr"), DirDiffGet()]
+    reg.method_bindings[("DiffNode", "children")] = lambda cx, node: ChildrenColl(ref_of(node))
     reg.method_bindings[("DiffNode", "status")] = lambda cx, node: status_by_contract(cx, node)
     reg.method_bindings[("DiffNode", "_type")] = lambda cx, node, e: TypeOf(tree_t(e))
     for s in specs:
@@ -556,6 +753,6 @@ def build(reg):
     return {
         "verify": specs,
         "lemmas": [],
-        "trusted": [T2_PATH, T5_MODEL],
-        "assumptions": ["DirHashsums well-formedness: only dicts have entries and entries are never None; python == on snapshot values is deep equality (axiomatised as the fixpoint equation of tree_eq)", "every DiffNode is created by DiffNode.compare, so the one-level contract proved here holds for every node of the diff tree (structural induction over the recursion, argued in DESIGN); nodes()/get()/annotate ordering is checked bounded"],
+        "trusted": [T2_PATH, T5_MODEL, T2_PREFIXES, "DiffNode.children() yields exactly the values of the removed, modified and added dicts (itertools.chain, T2); next(gen, None) is the first element passing the filter, or None if there is none"],
+        "assumptions": ["DirHashsums well-formedness: only dicts have entries and entries are never None; python == on snapshot values is deep equality (axiomatised as the fixpoint equation of tree_eq)", "every DiffNode is created by DiffNode.compare, so the one-level contract proved here holds for every node of the diff tree (structural induction over the recursion, argued in DESIGN); the walk of DirDiff.get is under contract step by step (that its answer agrees with the listing follows with one-node-per-path, argued in DESIGN); nodes()/annotate ordering is checked bounded"],
     }
